@@ -365,7 +365,7 @@ def check_unpack(ctx, ci, bits='derive'):
     bits = _derive(ctx, ci) if bits == 'derive' else bits
     fi = ci.methods.get('unpack')
     rule = 'R8-extract'
-    w = repo.walker()
+    w = repo.walker(inline_depth=2)
     w.split_bool = True
     for p in w.paths(fi.node, cls=ci):
         if p.raises():
@@ -425,7 +425,7 @@ def check_pack(ctx, ci, bits='derive'):
     bits = _derive(ctx, ci) if bits == 'derive' else bits
     fi = ci.methods.get('pack')
     rule = 'R8-confinement'
-    w = repo.walker()
+    w = repo.walker(inline_depth=2)
     w.split_bool = True
     for p in w.paths(fi.node, cls=ci):
         if p.raises():
